@@ -1004,6 +1004,34 @@ func c01SimplePrograms() []*Prog {
 			out = append(out, &Prog{Stmts: st})
 		}
 	}
+	// names that live only inside a construct are free again after it, in the same block: a second loop with
+	// the same counter, a definition of the counter's name after the loop, a block-local name defined again
+	// after the block (also with another type)
+	loopK := func(from, to int, body ...Stmt) Stmt {
+		return For{Init: Define{Names: []string{"k"}, Form: DefShort, Vals: []Expr{IntLit{int64(from)}}}, Cond: Binary{Op: "<", L: Var{"k"}, R: IntLit{int64(to)}}, Post: IncDec{Name: "k", Inc: true}, Body: body}
+	}
+	pk := Print{Args: []Expr{StrLit{V: "k"}, Var{"k"}}}
+	py := Print{Args: []Expr{StrLit{V: "y"}, Var{"y"}}}
+	defY := func(v Expr) Stmt { return Define{Names: []string{"y"}, Form: DefShort, Vals: []Expr{v}} }
+	reuse := [][]Stmt{
+		{loopK(0, 2, pk), loopK(5, 7, pk)},
+		{loopK(0, 2, pk), loopK(5, 7, pk), loopK(1, 2, pk)},
+		{loopK(0, 2, pk), Define{Names: []string{"k"}, Form: DefShort, Vals: []Expr{IntLit{9}}}, pk},
+		{loopK(0, 2, pk), Define{Names: []string{"k"}, Form: DefVarTypeIn, T: TStr, Vals: []Expr{StrLit{V: "s"}}}, pk},
+		{loopK(0, 2, pk), Define{Names: []string{"k"}, Form: DefVarType, T: TBool}, pk},
+		{loopK(0, 2, defY(Binary{Op: "*", L: Var{"k"}, R: IntLit{2}}), py), defY(IntLit{3}), py, loopK(3, 4, pk)},
+		{If{Cond: BoolLit{true}, Then: []Stmt{defY(IntLit{1}), py}}, defY(IntLit{2}), py},
+		{If{Cond: Var{"t"}, Then: []Stmt{defY(IntLit{1}), py}, Else: []Stmt{defY(StrLit{V: "e"}), py}, HasElse: true}, defY(BoolLit{true}), py},
+		{Switch{Tag: Var{"x"}, Cases: []Case{{Val: IntLit{5}, Body: []Stmt{defY(IntLit{1}), py}}, {Default: true, Body: []Stmt{defY(IntLit{2}), py}}}}, defY(IntLit{7}), py},
+		{For{Cond: Binary{Op: "<", L: Var{"v2"}, R: IntLit{5}}, Body: []Stmt{defY(Var{"v2"}), py, IncDec{Name: "v2", Inc: true}}}, defY(StrLit{V: "after"}), py},
+	}
+	for _, body := range reuse {
+		for _, w := range wrap {
+			st := append(append([]Stmt{}, pre...), w(append(append([]Stmt{}, body...), show))...)
+			st = append(st, show)
+			out = append(out, &Prog{Stmts: st})
+		}
+	}
 	// all ordered pairs of non-defining simple statements at top level and in a loop
 	for i, s1 := range simples[:10] {
 		for j, s2 := range simples[:10] {
